@@ -171,6 +171,11 @@ def check(repo, rep):
         calls = [n for n in ast.walk(h) if isinstance(n, ast.Call) and isinstance(n.func, ast.Attribute) and n.func.attr == 'stop_all']
         rep.ob('the interrupt handler calls stop_all() on the tokenizer worker', len(calls) >= 1, cx.where('cmdline', h), 'cmdline.main:handler-stop_all')
         body_calls = [ast.unparse(n.func) for st_ in tr_.body for n in ast.walk(st_) if isinstance(n, ast.Call)]
+        # calls made by module-level helpers invoked from the guarded region count as well
+        for name in list(body_calls):
+            hf = cx.fn('cmdline', name, required=False) if name.isidentifier() else None
+            if hf is not None:
+                body_calls += [ast.unparse(n.func) for n in ast.walk(hf) if isinstance(n, ast.Call)]
         rep.ob('the guarded region covers start_all() and the wait loop', any(c.endswith('start_all') for c in body_calls) and any(c.endswith('sleep') for c in body_calls), cx.where('cmdline', tr_), 'cmdline.main:try-coverage')
         # the saver is joined before its file is exported
         joins = [n for n in ast.walk(h) if isinstance(n, ast.Call) and isinstance(n.func, ast.Attribute) and n.func.attr == 'join']
